@@ -387,6 +387,8 @@ class C12(core.Check):
         sk = k.choice(["random", "random", "pct", "pct", "starve", "fine_start", "entry_sync", "entry_sync", "io_sync"])
         if shared_save or paths:
             sk = k.choice([sk, "io_sync"])  # races through files: let the order of file-system operations decide
+        if paths:
+            sk = k.choice([sk, "fine_start", "io_sync"])  # projects opened side by side: interleave them while the calls are young
         sched = {"kind": sk, "seed": s("schedule").randrange(1 << 30)}
         if sk == "pct":
             sched["d"] = k.choice([1, 2, 3])
